@@ -9,7 +9,8 @@ func (fm *provider) DownFlows() ([]reflect.Type, []reflect.Type) {
 	case unsetClassType:
 		// continue
 	default:
-		return fm.flows[inputParams].Types(), fm.flows[outputParams].Types()
+		// a wrapper's inner function is not something the chain supplies
+		return typeCodes(noNoType(fm.flows[inputParams])).Types(), fm.flows[outputParams].Types()
 	}
 	switch r := fm.fn.(type) {
 	case Reflective:
